@@ -105,6 +105,7 @@ class URLFormatter(object):
             format_arg_value = self.format_arg_value
 
         fragment = self.fragment if fragment is None else fragment
+        ext = self.ext if ext is None else ext
 
         # Args are merged
         if args is None:
